@@ -7,8 +7,15 @@ PROPS = {
     "C04": {
         "units": ["U9_crc"],
         "kani": [],
-        "title": "A read that completes successfully returned uncorrupted data",
+        "technique": "Verus contracts on Crc32Reader (real text, extracted each run) + history lemma",
+        "level_text": "Deductive proof, for every inner reader, every buffer size (incl. zero-length) and every short-read schedule, that Crc32Reader::read hashes exactly the bytes it returns and can answer Ok(0) on a non-empty buffer only if the accumulated CRC equals the declared one or the entry is AE-2; a checked lemma lifts this to any history of reads ending at end-of-file.",
+        "level_note": "crc32fast assumed to compute CRC-32 (uninterpreted crc32); the wiring of Crc32Reader around every decoder in read.rs (make_reader / is_ae2_encrypted) is decided only once unit U8 is built - until then listed under undecided_clauses in the evidence",
+        "undecided": ["make_reader wraps every decoding variant in Crc32Reader with the entry's declared CRC and the AE-2 flag (unit U8, not built yet)"],
     },
+}
+
+NOT_APPLICABLE = {
+    "C20": "quantifies over thread schedules and a relaxed atomic; Kani has no thread support and Verus reasons about concurrency only through its own permission types, which the real code does not use (DESIGN.md section 10)",
 }
 
 # (fn id, clause label or None) -> witness: file under /verif/witness and test name filter
